@@ -342,7 +342,7 @@ func (cmd *mainCmd) Run(args []string) error {
 			cmd.printComments(sourcePath.Provided, comments)
 			_, err = cmd.Stdout.Write(bs)
 		default:
-			err = os.WriteFile(filename, bs, 0o644)
+			err = writeFileAtomic(filename, bs)
 		}
 		if err != nil {
 			log.Printf("%s: failed: %v", filename, err)
@@ -354,6 +354,43 @@ func (cmd *mainCmd) Run(args []string) error {
 
 	errors = append(errors, patchRunner.errors...)
 	return multierr.Combine(errors...)
+}
+
+// writeFileAtomic replaces the contents of filename with bs.
+//
+// The new contents are written to a temporary file in the same directory,
+// which is then renamed over filename. A write that fails or is interrupted
+// part way therefore leaves filename with its original contents rather than
+// a truncated file.
+func writeFileAtomic(filename string, bs []byte) (err error) {
+	mode := os.FileMode(0o644)
+	if info, err := os.Stat(filename); err == nil {
+		mode = info.Mode().Perm()
+	}
+
+	f, err := os.CreateTemp(filepath.Dir(filename), filepath.Base(filename)+".*.tmp")
+	if err != nil {
+		return err
+	}
+	tmp := f.Name()
+	defer func() {
+		if err != nil {
+			_ = os.Remove(tmp)
+		}
+	}()
+
+	if _, err = f.Write(bs); err != nil {
+		_ = f.Close()
+		return err
+	}
+	if err = f.Chmod(mode); err != nil {
+		_ = f.Close()
+		return err
+	}
+	if err = f.Close(); err != nil {
+		return err
+	}
+	return os.Rename(tmp, filename)
 }
 
 func checkGeneratedCode(f *ast.File) bool {
